@@ -326,3 +326,42 @@ func LegacyAddress(pk []byte) []byte {
 func MsgDigits(hf Hash, R, root []byte, idx uint32, msg []byte) []int {
 	return Digits(NewWOTS(16), msgHash(hf, R, root, idx, msg))
 }
+
+// Fabricate builds a (sig, pk) pair for msg that the specification verifier accepts, for ANY height h and leaf
+// index idx, without generating a tree: one real WOTS key pair at leaf idx (derived from skSeed), an arbitrary
+// authentication path, and the root obtained by climbing that path. Used to exercise verification at tall
+// heights and large indices, where real keys cannot be generated.
+func Fabricate(hf Hash, h int, idx uint32, msg, skSeed, skPRF, pubSeed []byte, auth func(level int) []byte) (sig []byte, pk []byte) {
+	p := NewWOTS(16)
+	k := &Key{Hf: hf, Hgt: h, SkSeed: skSeed, SkPRF: skPRF, PubSeed: pubSeed, p: p}
+	leaf := k.Leaf(idx)
+	// climb
+	node := leaf
+	li := idx
+	var path []byte
+	for t := 0; t < h; t++ {
+		sib := auth(t)
+		path = append(path, sib...)
+		a := Addr{0, 0, 0, 2, 0, uint32(t), li >> 1, 0}
+		if li&1 == 1 {
+			node = H(hf, append(append([]byte(nil), sib...), node...), pubSeed, a)
+		} else {
+			node = H(hf, append(append([]byte(nil), node...), sib...), pubSeed, a)
+		}
+		li >>= 1
+	}
+	root := node
+	R := prf(hf, skPRF, toByte(uint64(idx), 32))
+	d := msgHash(hf, R, root, idx, msg)
+	ds := Digits(p, d)
+	sk := k.wotsSK(idx)
+	sig = append(toByte(uint64(idx), 4), R...)
+	for j := range sk {
+		a := Addr{0, 0, 0, 0, idx, uint32(j), 0, 0}
+		sig = append(sig, chain(hf, p, sk[j], 0, ds[j], pubSeed, a)...)
+	}
+	sig = append(sig, path...)
+	pk = append([]byte{byte(hf), byte(h / 2), 0}, root...)
+	pk = append(pk, pubSeed...)
+	return
+}
